@@ -137,6 +137,10 @@ def bx_apply(box, op):
                 out = ["ok", "none" if r is None else O.skel_of(r)]
             elif kind == "update":
                 box.update({pk(k): O.build_payload(v) for k, v in op[1]}); out = ["ok"]
+            elif kind == "select" and op[1]:
+                r = box.select(*[pk(k) for k in op[1]], strict=op[2], inplace=op[3]); out = ["ok"]; res = None if op[3] else _BoxRes(r)
+            elif kind == "exclude":
+                r = box.exclude(*[pk(k) for k in op[1]], inplace=op[2]); out = ["ok"]; res = None if op[2] else _BoxRes(r)
             else:
                 return None, None
     except TimeoutError:
@@ -146,11 +150,56 @@ def bx_apply(box, op):
     return out, res
 
 
+class _BoxRes:
+    """an out-of-place result of the tensorclass: what counts is the tensordict it holds"""
+    def __init__(self, box):
+        self.box = box
+
+
 # --------------------------------------------------------------------------- runner
-def run_extended(run, rng):
+def _erase(out):
+    return ["err"] if out[0] == "err" else out
+
+
+def model_stream(run, drv, recs):
+    """EXACT comparison with the Lean model (Model/C04Tree.lean `step`, the transcription of TensorDict's mapping code):
+    a lazy stack acts on each of its members as a TensorDict does (tensordict/_lazy.py: _set_str/_set_tuple, del_,
+    rename_key_, _select, _exclude, _flatten_keys_outplace, ... are loops over `self.tensordicts`), and a tensordict held in a
+    tensorclass is reached through the class's `_tensordict` with the field name as first key component. Compared: the
+    state of EVERY member / of the held tensordict afterwards (entries, order, empty nested tensordicts), ok-vs-raised, and the
+    out-of-place results."""
+    from check_C04 import ask_batched
+    from common import Infra, parse_sx
+    reqs = [(f"(c04.member {O.sx_skel(r['pre'])} {O.sx_op(r['op'])})" if r["kind"] == "lazy-stack"
+             else f"(c04.step {O.sx_skel(r['pre'])} {O.sx_op(r['op'])} ())") for r in recs]
+    for r, a, q in zip(recs, ask_batched(drv, reqs), reqs):
+        if a == "(bad-op)":
+            raise Infra("driver rejected " + q[:300])
+        v = parse_sx(a)
+        mstate = O.skel_from_sx(v[0])
+        o = v[1]
+        if o[0] == "err":
+            mo, mres = ["err"], None
+        elif o[0] == "res":
+            mo, mres = ["ok"], [O.skel_from_sx(x) for x in o[1:]]
+        elif o[0] == "val":
+            mo, mres = ["ok"], None
+        else:
+            mo, mres = ["ok"], None
+        kind = r["kind"]
+        for i, st in enumerate(r["states"]):
+            run.corr(kind + ".state", dict(r["case"], member=i), st, mstate)
+        run.corr(kind + ".outcome", r["case"], [r["out"][0]], mo)
+        if r["res"] is not None and mres is not None:
+            for i, rs in enumerate(r["res"]):
+                run.corr(kind + ".result", dict(r["case"], member=i), rs, mres[0] if mres else None)
+
+
+def run_extended(run, rng, drv=None):
     from check_C04 import check_step, nt_hazard
     from tensordict import LazyStackedTensorDict
-    nh = 25 if run.tier == "quick" else 250
+    nh = 60 if run.tier == "quick" else 600
+    recs = []
     for kind in ("lazy-stack", "tensorclass"):
         for hid in range(nh):
             ids = O.Ids()
@@ -183,6 +232,10 @@ def run_extended(run, rng):
                 if kind == "tensorclass" and op[0] == "setdefault":
                     continue      # the tensorclass wrapper tries to re-wrap the returned entry as the class
                 pre = skel(obj)
+                try:
+                    mpre = O.skel_of(obj.tensordicts[0]) if kind == "lazy-stack" else pre
+                except Exception:  # noqa
+                    mpre = None
                 out, res = apply(obj, op)
                 if out is None:
                     continue
@@ -204,6 +257,20 @@ def run_extended(run, rng):
                 ok = _check(run, kind, case, pre, op, R, out, post, resk, skel)
                 if not ok:
                     break
+                # for the exact comparison with the model
+                try:
+                    if kind == "lazy-stack":
+                        states = [O.skel_of(m) for m in obj.tensordicts]
+                        rs = None
+                        if res is not None and hasattr(res, "tensordicts"):
+                            rs = [O.skel_of(m) for m in res.tensordicts]
+                    else:
+                        states = [post]
+                        rs = [bx_skel(res.box)] if isinstance(res, _BoxRes) else None
+                    if mpre is not None:
+                        recs.append({"kind": kind, "case": case, "pre": mpre, "op": op, "states": states, "out": out, "res": rs})
+                except Exception:  # noqa
+                    pass
                 # key views of the container against the dict
                 dd = O.o_build(post)
                 try:
@@ -216,6 +283,8 @@ def run_extended(run, rng):
                 except AttributeError:
                     pass
                 d = dd
+    if drv is not None:
+        model_stream(run, drv, recs)
 
 
 def _check(run, site, case, pre, op, R, out, post, res, skel):
@@ -223,7 +292,10 @@ def _check(run, site, case, pre, op, R, out, post, res, skel):
     import check_C04
     old = O.skel_of
     try:
-        O.skel_of = skel if site == "lazy-stack" else old
+        if site == "lazy-stack":
+            O.skel_of = skel
+        else:
+            O.skel_of = lambda x: bx_skel(x.box) if isinstance(x, _BoxRes) else old(x)
         return check_C04.check_step(run, site, case, pre, op, R, out, post, res)
     finally:
         O.skel_of = old
